@@ -91,6 +91,8 @@ def render(case, abs_path):
             segs.append("new")
         elif s == "ABS":
             segs.extend([x for x in abs_path.split("/") if x])
+        elif s == "OUT":
+            segs.extend(["outside", "cal", "a.ics"])
         else:
             segs.append(s)
     enc = case["enc"]
@@ -126,7 +128,8 @@ def render(case, abs_path):
 
 
 def render_norm(case):
-    segs = [{"N1": "cal", "N2": "a.ics", "F": "new", "ABS": "ABS-outside"}.get(s, s) for s in case["norm"]]
+    segs = [{"N1": "cal", "N2": "a.ics", "F": "new", "ABS": "ABS-outside", "OUT": "outside/cal/a.ics"}.get(s, s)
+            for s in case["norm"]]
     return "/" + "/".join(urllib.parse.quote(s) for s in segs)
 
 
